@@ -169,6 +169,9 @@ def run(ctx):
     # clean-up ticks run next to the other handlers
     for k in range(8 if ctx.tier == "thorough" else 3):
         storms.append({"max": ctx.rng.range(1, 3), "peers": ctx.rng.range(3, 7), "workers": ctx.rng.range(3, 7), "cleaners": ctx.rng.range(1, 3), "millis": 1500 if ctx.tier == "thorough" else 500})
+    # the application redraws its display in the change notification, which the handlers call between their critical sections
+    for k in range(8 if ctx.tier == "thorough" else 3):
+        storms.append({"max": ctx.rng.range(2, 4), "peers": ctx.rng.range(4, 8), "workers": ctx.rng.range(3, 7), "change_cb_us": ctx.rng.choice([100, 300, 1000]), "millis": 1500 if ctx.tier == "thorough" else 500})
     spath = _os.path.join(ctx.workdir, "admstorm.cases")
     open(spath, "w").write("\n".join("admstorm " + json.dumps(sp).encode().hex() for sp in storms) + "\n")
     rcs = ctx.run_harness(exe, spath, _os.path.join(ctx.workdir, "admstorm.out"), timeout=300)
@@ -189,8 +192,29 @@ def run(ctx):
             ctx.violation("C12:peer-transferring-twice", f"receiver {o['same_peer_twice']} had two un-cancelled transfers running at once", rep)
         if o.get("stalled") or o.get("panics"):
             ctx.violation("C12:handlers-stall-or-panic", f"concurrent handler calls stalled or panicked: {o.get('panics')}", rep)
+        if o.get("stranded"):
+            ctx.violation("C12:waiting-receiver-not-started", f"after the handlers stopped a receiver kept waiting in the queue next to a free slot for 300 ms (queue {o.get('final_queue')}, "
+                          f"slots in use {o.get('final_active')} of {sp['max']}): nobody will start it", rep)
         if o.get("final_queue") != o.get("final_status_queued") or o.get("final_active") != o.get("final_status_transferring"):
             ctx.violation("C12:status-queue-mismatch", f"after the storm: queue {o.get('final_queue')} vs {o.get('final_status_queued')} QUEUED, slots {o.get('final_active')} vs {o.get('final_status_transferring')} TRANSFERRING", rep)
+    # directed: the pass that serves a freed slot is held in the change notification while another transfer ends
+    hp = _os.path.join(ctx.workdir, "admhold.cases")
+    open(hp, "w").write("admhold\n" * 3)
+    rch = ctx.run_harness(exe, hp, _os.path.join(ctx.workdir, "admhold.out"), timeout=120)
+    houts = open(_os.path.join(ctx.workdir, "admhold.out")).read().splitlines()
+    ctx.oblige("harness:admhold", rch == 0 and len(houts) == 3, ctx.harness_stderr[-200:] if rch else "")
+    for ho in houts:
+        try:
+            o = json.loads(ho)
+        except Exception:
+            ctx.oblige("harness:admhold-output", False, ho[:200])
+            continue
+        if o.get("setup_err"):
+            ctx.oblige("harness:admhold-setup", False, o["setup_err"])
+        elif not o.get("d_started") or not o.get("c_started"):
+            ctx.violation("C12:waiting-receiver-not-started", f"max-receivers 2, a and b served, c and d waiting; a ended, the pass serving its slot was held in the change notification "
+                          f"while b ended: afterwards c started={o.get('c_started')} d started={o.get('d_started')}, queue {o.get('queue')}, slots {o.get('active')}", {"scenario": "admhold", "result": o})
+            break
     ctx.coverage.update({
         "storms": len(storms), "storm_transfers_started": storm_started,
         "evaluations": len(cases) + len(storms), "distinct_nontrivial": nt,
